@@ -413,3 +413,34 @@ Print Assumptions C12_single_readfrom_translated.
 Print Assumptions C12_set_get_translated.
 Print Assumptions C12_wire_roundtrip_translated.
 Print Assumptions C12_wire_len.
+
+(* ---- phase 5 *)
+From GoMC Require Proofs.C12_skel_data.
+
+(* the fuel-exhaustion hypothesis of C12_readfrom_translated removed: the model's palette reader
+   consumes at least one byte per entry, so fuel >= |input| is always enough (the driver and the
+   interpreter use |input| + 1) *)
+Theorem C12_read_no_fuel : forall fuel c s, (List.length s <= fuel)%nat -> run_flat (pc_read fuel c) s <> FFuel.
+Proof. exact pc_read_no_fuel. Qed.
+Theorem C12_readfrom_translated_total : forall fuel used s, (List.length s <= fuel)%nat ->
+  C12_tr.tr_read fuel used s = Some (run_flat (pc_read fuel used) s).
+Proof. exact C12_tr.tr_read_total. Qed.
+
+(* the translated NewBiomesPaletteContainerWithData - width inference calcBitsPerValue, the 3-bit
+   special case by palette length and calcBitStorageSize(3, length), the switch 0 / 1..3 / default,
+   withCap, resolveIndirect for more than 1<<3 entries, NewBitStorage(biomesCfg{}.bits(n), length, data)
+   with its length check - IS pc_with_data, for every length, long array and palette slice of any
+   capacity, on every exit (each panic included).  (withCap and resolveIndirect enter as the model's
+   with_cap / resolve_indirect; their own bodies and the block-state constructor are pinned by
+   *_skel_ok, see C12_bodies_recorded.) *)
+Theorem C12_biomes_with_data_translated : forall gs gb n data pat capp,
+  C12_skel_set.new_result
+    (run_g (cfg_env gs gb) no_set C12gen.pal_NewBiomesPaletteContainerWithData VNil [VZ n; VData data; VSlice pat capp])
+  = Some (pc_with_data (mkCfg KBiomes gb) n data pat).
+Proof.
+  intros. rewrite C12_expected.NewBiomesPaletteContainerWithData_skel_ok. apply C12_skel_data.tie_biomes_with_data.
+Qed.
+
+Print Assumptions C12_read_no_fuel.
+Print Assumptions C12_readfrom_translated_total.
+Print Assumptions C12_biomes_with_data_translated.
